@@ -136,12 +136,14 @@ func txObs(tx *chain.Transaction, slice []byte) (string, *chain.Transaction, boo
 	if err != nil {
 		panic(err)
 	}
-	idsOK := tx.GetID() == utils.ToID(slice) && rebuilt.GetID() == utils.ToID(rebuilt.Bytes()) &&
-		(rebuilt.GetID() == tx.GetID()) == bytes.Equal(rebuilt.Bytes(), tx.Bytes()) && tx.Size() == len(tx.Bytes())
+	cachedOK := bytes.Equal(tx.Bytes(), slice) && bytes.HasPrefix(tx.Bytes(), tx.UnsignedBytes()) &&
+		tx.GetID() == utils.ToID(slice) && tx.Size() == len(slice)
+	reencOK := bytes.Equal(rebuilt.Bytes(), tx.Bytes()) && bytes.Equal(rebuilt.UnsignedBytes(), tx.UnsignedBytes()) &&
+		rebuilt.GetID() == tx.GetID()
 	s := emit.App("mkObs", emit.Z(tx.Base.Timestamp), emit.Bytes(tx.Base.ChainID[:]), emit.N(tx.Base.MaxFee),
-		emit.BytesList(acts), emit.Bytes(tx.Auth.Bytes()), emit.Bytes(tx.UnsignedBytes()), emit.Bytes(tx.Bytes()),
-		emit.Bytes(rebuilt.Bytes()), emit.Bytes(rebuilt.UnsignedBytes()), emit.Bool(idsOK))
-	return s, rebuilt, idsOK
+		emit.BytesList(acts), emit.Bytes(tx.Auth.Bytes()), emit.N(uint64(len(tx.UnsignedBytes()))),
+		emit.Bool(cachedOK), emit.Bool(reencOK))
+	return s, rebuilt, cachedOK && reencOK
 }
 
 func resObs(r *chain.Result) string {
@@ -280,7 +282,7 @@ func run(in input) (c emit.Case) {
 		blsItems[i] = emit.Pair(emit.Bytes(o.b), emit.Bool(o.ok))
 	}
 	coq := emit.App("mk", emit.N(uint64(in.Kind)), emit.Bytes(in.Bytes), emit.List("bytes * bool", blsItems), emit.N(uint64(class)),
-		emit.List("tx_obs", txs), blk, emit.List("option res_obs", results), emit.List("list N", dims), emit.Bytes(reenc), emit.Bool(flags))
+		emit.List("tx_obs", txs), blk, emit.List("option res_obs", results), emit.List("list N", dims), emit.Bool(class == 0 && bytes.Equal(reenc, in.Bytes)), emit.Bool(flags))
 	if len(errText) > 120 {
 		errText = errText[:120]
 	}
@@ -390,7 +392,7 @@ func transferBytes(r *rand.Rand) []byte {
 	var to codec.Address
 	to[0] = byte(r.Intn(2))
 	to[1] = byte(r.Intn(4))
-	memo := make([]byte, []int{0, 0, 1, 5, 81, 82, 100, 127, 128, 255, 256}[r.Intn(11)])
+	memo := make([]byte, []int{0, 0, 0, 1, 1, 2, 5, 5, 81, 82, 128, 256}[r.Intn(12)])
 	for i := range memo {
 		memo[i] = byte(r.Intn(256))
 	}
@@ -409,7 +411,7 @@ func genParts(r *rand.Rand) txParts {
 		}
 	}
 	p.fee = []uint64{0, 1, 1000, 1 << 40, math.MaxUint64}[r.Intn(5)]
-	n := []int{0, 1, 1, 1, 2, 3, 5}[r.Intn(7)]
+	n := []int{0, 1, 1, 1, 1, 2, 2, 3}[r.Intn(8)]
 	for i := 0; i < n; i++ {
 		p.actions = append(p.actions, transferBytes(r))
 	}
@@ -418,7 +420,7 @@ func genParts(r *rand.Rand) txParts {
 
 // signedTx serialises parts with the real code (SignRawActionBytesTx) and returns the bytes and the auth bytes.
 func signedTx(r *rand.Rand, p *txParts) []byte {
-	f := factoryOf(r.Intn(3), r.Intn(2))
+	f := factoryOf([]int{0, 0, 0, 1, 1, 2}[r.Intn(6)], r.Intn(2))
 	b, err := chain.SignRawActionBytesTx(chain.Base{Timestamp: p.ts, ChainID: p.chain, MaxFee: p.fee}, p.actions, f)
 	if err != nil {
 		panic(err)
@@ -561,7 +563,7 @@ func genTx(r *rand.Rand) ([]byte, string) {
 		case 0:
 			a, how = append(a, byte(r.Intn(2))), "trailing-byte"
 		case 1:
-			a, how = append(a, make([]byte, 1+r.Intn(300))...), "trailing-bytes"
+			a, how = append(a, make([]byte, 1+r.Intn(40))...), "trailing-bytes"
 		case 2:
 			a[0], how = 1, "wrong-id"
 		case 3:
@@ -711,7 +713,7 @@ func genBatch(r *rand.Rand) ([]byte, string) {
 func genBlock(r *rand.Rand) ([]byte, string) {
 	var txs []*chain.Transaction
 	p := newParser()
-	n := []int{0, 1, 2, 3}[r.Intn(4)]
+	n := []int{0, 1, 1, 2, 2, 3}[r.Intn(6)]
 	for i := 0; i < n; i++ {
 		parts := genParts(r)
 		tx, err := chain.UnmarshalTx(signedTx(r, &parts), p)
